@@ -89,9 +89,14 @@ func (l *ltBroadcast) buildPendBlock(pd *pendBlock) bool {
 			buildSuccess = false
 			continue
 		}
-		pd.block.GetTxs()[index] = tx
 		// 交易组处理
 		group, _ := tx.GetTxGroup()
+		// a group from the pool that does not fit the remaining slots cannot belong to this block
+		if index+len(group.GetTxs()) > len(pd.block.GetTxs()) {
+			buildSuccess = false
+			continue
+		}
+		pd.block.GetTxs()[index] = tx
 		// 交易组中的其他交易, 依次添加到区块交易列表中
 		for j, gtx := range group.GetTxs() {
 			pd.block.GetTxs()[index+j] = gtx
